@@ -647,3 +647,52 @@ func TestC18_R_FilesWhoseSizeIsMisreported(t *testing.T) {
 		}
 	}
 }
+
+// The descriptor table is full at the moment the importer wants to list a directory (another part of the program holds
+// them all): the import fails, it does not return a tree with that directory empty.
+func TestC18_R_DirectoryCannotBeListed(t *testing.T) {
+	root := &fsNode{Kind: fsDir, Kids: map[string]*fsNode{
+		"a.txt": {Kind: fsFile, Data: []byte("alpha")},
+		"sub":   {Kind: fsDir, Kids: map[string]*fsNode{"b.txt": {Kind: fsFile, Data: []byte("beta")}, "c": {Kind: fsFile, Data: nil}}},
+	}}
+	err := withFSTree(root, func(p string) {
+		var old syscall.Rlimit
+		if err := syscall.Getrlimit(syscall.RLIMIT_NOFILE, &old); err != nil {
+			t.Skip("no descriptor limit to set here")
+		}
+		lim := old
+		lim.Cur = 64
+		if err := syscall.Setrlimit(syscall.RLIMIT_NOFILE, &lim); err != nil {
+			t.Skip("cannot lower the descriptor limit")
+		}
+		var held []*os.File
+		for {
+			f, err := os.Open("/dev/null")
+			if err != nil {
+				break
+			}
+			held = append(held, f)
+		}
+		st := NewStore()
+		ls := st.LinkSystem()
+		var l datamodel.Link
+		var ierr error
+		must(t, "import with a full descriptor table", func() { l, _, ierr = builder.BuildUnixFSRecursive(p, ls) })
+		for _, f := range held {
+			f.Close()
+		}
+		_ = syscall.Setrlimit(syscall.RLIMIT_NOFILE, &old)
+		if len(held) == 0 {
+			t.Skip("could not fill the descriptor table")
+		}
+		if ierr != nil {
+			return // refused: fine
+		}
+		if err := c18Compare(st, ls, cidOf(l), root, "/"); err != nil {
+			t.Fatalf("C18: import while no descriptor was free (%d held elsewhere) returned a link and no error, but the tree is not the one on disk: %v", len(held), err)
+		}
+	})
+	if err != nil {
+		t.Fatal(err)
+	}
+}
